@@ -163,74 +163,140 @@ func boolOf(v ssa.Value) (bool, bool) {
 }
 
 // reach computes blocks reachable from start following successor edges except
-// those in cut. start itself is included. The walk is sensitive to the immediate predecessor for blocks that branch
-// on a boolean phi of their own (`ok := a && b; if !ok {...}`): entering such a block along an edge whose phi value is
-// known (a constant, or decided by condEval) only continues to the corresponding successor — the jump threading a
-// compiler would do, so that naming a condition does not change what the rules see.
+// those in cut. start itself is included. The walk is path-sensitive in the boolean phis of the function (named
+// conditions: `ok := a && b; ...; if !ok {...}`, `notCA := x || y; switch { case notCA && z: ...}`): the state is the
+// block plus the values of the boolean phis known on the path (a phi input that is a constant, another known phi, a
+// negation of those, or a value decided by condEval), and a branch whose condition is known under that state only
+// continues to the corresponding successor — the jump threading a compiler would do, so that naming a condition does
+// not change what the rules see. Beyond reachStateCap states the walk degrades to the path-insensitive closure
+// (more blocks reachable: sound for every "unreachable" claim built on it).
+const reachStateCap = 200000
+
 func reach(start []*ssa.BasicBlock, cut map[edge]bool) map[*ssa.BasicBlock]bool {
-	type state struct{ pred, b *ssa.BasicBlock }
+	seen, _ := reachEnv(start, cut, nil)
+	return seen
+}
+
+// reachEnv: reach, calling onState for every (block, environment) state visited; val gives the value of a boolean in
+// that state (0 false, 1 true, -1 unknown). The second result is false when the state cap was hit and the result is
+// the path-insensitive closure (onState calls made until then must be disregarded by the caller).
+func reachEnv(start []*ssa.BasicBlock, cut map[edge]bool, onState func(b *ssa.BasicBlock, val func(ssa.Value) int8)) (map[*ssa.BasicBlock]bool, bool) {
 	seen := map[*ssa.BasicBlock]bool{}
-	seenS := map[state]bool{}
-	var stack []state
-	// branchPhi: the block ends in If(phi) or If(!phi) with phi defined in the block itself
-	branchPhi := func(b *ssa.BasicBlock) (*ssa.Phi, bool) {
-		if len(b.Instrs) == 0 {
-			return nil, false
-		}
-		ifi, ok := b.Instrs[len(b.Instrs)-1].(*ssa.If)
-		if !ok {
-			return nil, false
-		}
-		c := ifi.Cond
-		neg := false
-		if u, ok := c.(*ssa.UnOp); ok && u.Op == token.NOT {
-			c, neg = u.X, true
-		}
-		if ph, ok := c.(*ssa.Phi); ok && ph.Block() == b {
-			return ph, neg
-		}
-		return nil, false
+	if len(start) == 0 {
+		return seen, true
 	}
-	push := func(pred, b *ssa.BasicBlock) {
-		if ph, _ := branchPhi(b); ph == nil {
-			pred = nil
+	fn := start[0].Parent()
+	var bphis []*ssa.Phi
+	phiIdx := map[*ssa.Phi]int{}
+	for _, b := range fn.Blocks {
+		for _, in := range b.Instrs {
+			ph, ok := in.(*ssa.Phi)
+			if !ok {
+				break
+			}
+			if bt, isB := ph.Type().Underlying().(*types.Basic); isB && bt.Kind() == types.Bool {
+				phiIdx[ph] = len(bphis)
+				bphis = append(bphis, ph)
+			}
 		}
-		st := state{pred, b}
+	}
+	// value of a boolean under an environment: 0 false, 1 true, -1 unknown
+	var val func(v ssa.Value, env []int8) int8
+	val = func(v ssa.Value, env []int8) int8 {
+		if cb, ok := constBool(v); ok {
+			if cb {
+				return 1
+			}
+			return 0
+		}
+		switch x := v.(type) {
+		case *ssa.UnOp:
+			if x.Op == token.NOT {
+				if r := val(x.X, env); r >= 0 {
+					return 1 - r
+				}
+				return -1
+			}
+		case *ssa.Phi:
+			if i, ok := phiIdx[x]; ok {
+				if env[i] >= 0 {
+					return env[i]
+				}
+				return -1
+			}
+		}
+		if condEval != nil {
+			if r, known := condEval(v); known {
+				if r {
+					return 1
+				}
+				return 0
+			}
+		}
+		return -1
+	}
+	type state struct {
+		b   *ssa.BasicBlock
+		env string
+	}
+	seenS := map[state]bool{}
+	type item struct {
+		b   *ssa.BasicBlock
+		env []int8
+	}
+	var stack []item
+	key := func(env []int8) string {
+		bs := make([]byte, len(env))
+		for i, e := range env {
+			bs[i] = byte(e + 1)
+		}
+		return string(bs)
+	}
+	overflow := false
+	push := func(b *ssa.BasicBlock, env []int8) {
+		st := state{b, key(env)}
 		if seenS[st] {
+			return
+		}
+		if len(seenS) > reachStateCap {
+			overflow = true
 			return
 		}
 		seenS[st] = true
 		seen[b] = true
-		stack = append(stack, st)
+		stack = append(stack, item{b, env})
+	}
+	unknown := make([]int8, len(bphis))
+	for i := range unknown {
+		unknown[i] = -1
 	}
 	for _, s := range start {
-		push(nil, s)
+		push(s, unknown)
 	}
-	for len(stack) > 0 {
-		st := stack[len(stack)-1]
+	for len(stack) > 0 && !overflow {
+		it := stack[len(stack)-1]
 		stack = stack[:len(stack)-1]
-		b := st.b
+		b := it.b
+		if onState != nil {
+			env := it.env
+			onState(b, func(v ssa.Value) int8 { return val(v, env) })
+		}
 		only := -1 // index of the only feasible successor, if decided
 		if len(b.Succs) == 2 {
 			if ifi, ok := b.Instrs[len(b.Instrs)-1].(*ssa.If); ok {
-				if ph, neg := branchPhi(b); ph != nil {
-					if st.pred != nil {
-						for i, p := range b.Preds {
-							if p == st.pred && i < len(ph.Edges) {
-								if v, known := boolOf(ph.Edges[i]); known {
-									if v != neg {
-										only = 0
-									} else {
-										only = 1
-									}
-								}
-							}
-						}
+				decide := condEval != nil
+				if !decide {
+					// without assumptions only named conditions (phis) are threaded
+					c := ifi.Cond
+					if u, ok := c.(*ssa.UnOp); ok && u.Op == token.NOT {
+						c = u.X
 					}
-				} else if v, known := boolOf(ifi.Cond); known && condEval != nil {
-					if v {
+					_, decide = c.(*ssa.Phi)
+				}
+				if decide {
+					if r := val(ifi.Cond, it.env); r == 1 {
 						only = 0
-					} else {
+					} else if r == 0 {
 						only = 1
 					}
 				}
@@ -240,10 +306,62 @@ func reach(start []*ssa.BasicBlock, cut map[edge]bool) map[*ssa.BasicBlock]bool 
 			if cut[edge{b, s}] || (only >= 0 && i != only) {
 				continue
 			}
-			push(b, s)
+			// the boolean phis of s take the values flowing in over this edge (all read in the old environment)
+			env := it.env
+			var pi = -1
+			for j, p := range s.Preds {
+				if p == b {
+					pi = j
+					break
+				}
+			}
+			copied := false
+			for _, in := range s.Instrs {
+				ph, ok := in.(*ssa.Phi)
+				if !ok {
+					break
+				}
+				k, isB := phiIdx[ph]
+				if !isB {
+					continue
+				}
+				nv := int8(-1)
+				if pi >= 0 && pi < len(ph.Edges) {
+					nv = val(ph.Edges[pi], it.env)
+				}
+				if nv != env[k] {
+					if !copied {
+						env = append([]int8(nil), it.env...)
+						copied = true
+					}
+					env[k] = nv
+				}
+			}
+			push(s, env)
 		}
 	}
-	return seen
+	if overflow {
+		// path-insensitive closure
+		seen = map[*ssa.BasicBlock]bool{}
+		var st []*ssa.BasicBlock
+		for _, s := range start {
+			if !seen[s] {
+				seen[s] = true
+				st = append(st, s)
+			}
+		}
+		for len(st) > 0 {
+			b := st[len(st)-1]
+			st = st[:len(st)-1]
+			for _, s := range b.Succs {
+				if !cut[edge{b, s}] && !seen[s] {
+					seen[s] = true
+					st = append(st, s)
+				}
+			}
+		}
+	}
+	return seen, !overflow
 }
 
 // blocksEndingInPanic: blocks whose last instruction is a Panic.
@@ -547,6 +665,24 @@ func canReachSuccess(from *ssa.BasicBlock, in *edge, ex exits, cut map[edge]bool
 	if in != nil && ex.edges[*in] {
 		return true, from
 	}
+	if ex.kind == "bool" {
+		// boolean results are read in the state they are returned in: a result that is false on the path (a constant,
+		// a named condition known to be false, a value the current assumptions decide) is not a success
+		var hit *ssa.BasicBlock
+		_, exact := reachEnv([]*ssa.BasicBlock{from}, cut, func(b *ssa.BasicBlock, val func(ssa.Value) int8) {
+			if hit != nil {
+				return
+			}
+			if ret, ok := b.Instrs[len(b.Instrs)-1].(*ssa.Return); ok && ex.idx < len(ret.Results) {
+				if val(unspill(ret.Results[ex.idx])) != 0 {
+					hit = b
+				}
+			}
+		})
+		if exact {
+			return hit != nil, hit
+		}
+	}
 	seen := reach([]*ssa.BasicBlock{from}, cut)
 	for b := range seen {
 		if ex.blocks[b] {
@@ -651,7 +787,7 @@ func unspill(v ssa.Value) ssa.Value {
 func addrKey(v ssa.Value) string {
 	switch x := v.(type) {
 	case *ssa.Parameter:
-		return x.Name()
+		return pname(x)
 	case *ssa.FieldAddr:
 		b := addrKey(x.X)
 		if b == "" {
